@@ -332,6 +332,7 @@ def run_agnostic(case):
   extra = set()
   rounds = [list(r) for r in case['rounds']]
   r = 0
+  kept = [(state, list(model_window), 'after init')]   # every state of the run
   while r < len(rounds):
     rnd = rounds[r]
     if all_finite(state.params):
@@ -351,6 +352,7 @@ def run_agnostic(case):
     check_diag_keys(diag, clients, 'agnostic')
     model_window = model_window[1:] + [counts.astype(np.float64)]
     ag_check_state(case, state, model_window, f'after round {r}')
+    kept.append((state, list(model_window), f'after round {r}'))
     if hp['dalg'] == 'none':
       require(same_bits(state.domain_weights, init_weights), 'agnostic:none_changed_domain_weights',
               f'after round {r}: {np.asarray(state.domain_weights).tolist()}')
@@ -362,6 +364,19 @@ def run_agnostic(case):
       rounds.append([[i, 0] for i in range(len(case['pool']))])
       extra.add('extended_after_non_finite_params')
     r += 1
+  # Along the history every state keeps ITS window: the states of a run do not
+  # share one window that later rounds keep sliding ...
+  for old_state, old_window, where in kept:
+    ag_check_state(case, old_state, old_window, f'{where}, re-read at the end of the history')
+  # ... and a round applied to an EARLIER state slides that state's window.
+  if len(kept) >= 3 and all_finite(kept[1][0].params):
+    old_state, old_window, where = kept[1]
+    rnd = rounds[-1]
+    if ag_exponent(case, old_state.params, rnd) <= 60.0:
+      branch, _ = alg.apply(old_state, cohort(rnd, datasets))
+      ag_check_state(case, branch, old_window[1:] + [ag_counts(case, rnd).astype(np.float64)],
+                     f'branch: last cohort applied to the state {where}')
+      extra.add('branched_from_an_earlier_state')
   return sorted(extra)
 
 
@@ -555,16 +570,28 @@ HYP_SOPT = [{'name': 'momentum', 'lr_exp': 0, 'momentum': 4},
             {'name': 'sgd', 'lr_exp': 0, 'momentum': 0}]
 
 
+def hyp_regularizer(params):
+  # 1/4 |params|^2: differs from cluster to cluster, so it takes part in the
+  # choice of the cluster of minimal average loss
+  return 0.25 * sum(jnp.sum(jnp.square(v)) for v in jax.tree_util.tree_leaves(params))
+
+
+def hyp_regularizer64(p):
+  return 0.25 * float(sum(np.sum(np.square(np.asarray(v, np.float64))) for v in p.values()))
+
+
 @functools.lru_cache(maxsize=None)
 def _build_hyp(key):
   hp = json.loads(key)
   copt, sopt = opt_of(HYP_COPT[hp['copt']]), opt_of(HYP_SOPT[hp['sopt']])
   bh = batch_hparams(hp['batch'])
+  reg = hyp_regularizer if hp.get('reg') else None
   alg = hyp_lib.hyp_cluster(
       per_example_loss, copt, sopt,
       fedjax.PaddedBatchHParams(batch_size=hp['mbs'], num_batch_size_buckets=hp['buckets']),
-      bh)
-  ref = fed_avg_lib.federated_averaging(GRAD[False], copt, sopt, bh)
+      bh, regularizer=reg)
+  grad = fedjax.grad(per_example_loss, reg) if reg else GRAD[False]
+  ref = fed_avg_lib.federated_averaging(grad, copt, sopt, bh)
   return alg, ref
 
 
@@ -598,10 +625,12 @@ def run_hyp(case):
       if sizes[i] == 0:
         continue
       x, y = arrays[i]
-      losses = [float(np.mean(ref_residual(p, x, y) ** 2)) for p in old64]
+      # average loss = mean per-example loss + the regularizer of that cluster
+      losses = [float(np.mean(ref_residual(p, x, y) ** 2)) +
+                (hyp_regularizer64(p) if hp.get('reg') else 0.0) for p in old64]
       s = max(float(np.max(np.abs(x) @ np.abs(p['w']) + 0.5 * abs(p['b']) + np.abs(y)))
               for p in old64)
-      tol = 1e-5 * (1.0 + s * s)
+      tol = 1e-5 * (1.0 + s * s + (max(hyp_regularizer64(p) for p in old64) if hp.get('reg') else 0.0))
       require(losses[a] <= min(losses) + tol, 'hyp:client_not_assigned_to_minimal_loss_cluster',
               f'round {r}: client {i} assigned to {a}, float64 losses {losses}, tol {tol:.2e}')
       if sorted(losses)[1] - min(losses) <= tol:
@@ -653,6 +682,8 @@ def hyp_labels(case):
         'rounds:%d' % len(case['rounds'])]
   if len({tuple(v) for v in case['clusters']}) < len(case['clusters']):
     ls.append('duplicate_cluster_params')
+  if hp.get('reg'):
+    ls.append('regularizer')
   return ls + returning_labels(case)
 
 
@@ -939,7 +970,8 @@ def _apfl_preset(i):
 
 def _hyp_preset(i):
   return {'copt': i % 3, 'sopt': [0, 1, 2][i % 3], 'mbs': [2, 4][(i // 2) % 2],
-          'buckets': [1, 2][i % 2], 'batch': preset_batch([2, 3, 5][i % 3])}
+          'buckets': [1, 2][i % 2], 'batch': preset_batch([2, 3, 5][i % 3]),
+          'reg': i % 2}
 
 
 def _mime_preset(i):
@@ -949,7 +981,7 @@ def _mime_preset(i):
 
 AG_PRESETS = [_ag_preset(i) for i in range(9)]
 APFL_PRESETS = [_apfl_preset(i) for i in range(7)]
-HYP_PRESETS = [_hyp_preset(i) for i in range(3)]
+HYP_PRESETS = [_hyp_preset(i) for i in range(4)]
 MIME_PRESETS = [_mime_preset(i) for i in range(7)]
 
 
@@ -1010,7 +1042,7 @@ def _hyp_free(draw):
   return {'copt': draw(st.integers(0, len(HYP_COPT) - 1)),
           'sopt': draw(st.sampled_from([0, 0, 1, 1, 2])),
           'mbs': draw(st.sampled_from([2, 4])), 'buckets': draw(st.sampled_from([1, 2])),
-          'batch': draw_batch(draw)}
+          'batch': draw_batch(draw), 'reg': draw(st.integers(0, 1))}
 
 
 @st.composite
